@@ -124,6 +124,9 @@ def wake(ctx):
                    "" if ok else detail, fn=top.label, inst=f.qname)
 
 
+ORIGINAL_OPS = ("activate", "trigger", "wait", "wait_for", "waitActivation", "wait_forActivation", "reset", "isActive", "isTriggered")
+
+
 def who(ctx):
     rid = "C11.who"
     ctx.rule(rid, "who-writes table of the two flags; trigger() does nothing on an inactive variable", floor=3)
@@ -135,6 +138,13 @@ def who(ctx):
         for f, top, op, val in flag_stores(ctx, flag):
             allowed = want.get((flag, val))
             ok = allowed is not None and top.name in allowed and (op["op"] == "store" or op["name"] == "exchange")
+            if not ok and top.name not in ORIGINAL_OPS and (flag, val) == ("triggered", True) and op["op"] == "store":
+                # an operation added later may fire the trigger as trigger() does: only on an active variable (the store is
+                # dominated by a test of activated); C11.guard / C11.wake judge the mutex and the notification
+                acc = common.accessors_of(ctx.fb, CLS, "activated")
+                tests = [o["st"] for o in atomic_ops(f) if o["op"] == "load" and atomic_field_of(f, o) == (CLS, "activated")] + \
+                        [c for c in f.stmts.values() if c["k"] == "CXXMemberCallExpr" and (c.get("callee") or {}).get("name") in acc]
+                ok = any(f.pos_of(t) and f.dominates(f.pos_of(t), f.pos_of(op["st"])) for t in tests)
             ctx.ob(rid, ok, f.loc(op["st"]), "%s is set to %s only in %s" % (flag, str(val).lower(),
                    "/".join(sorted(allowed)) if allowed else "a known operation"),
                    "" if ok else "%s() %s %s" % (top.name, op["name"], val), fn=top.label, inst=f.qname)
